@@ -141,7 +141,13 @@ def match_known(entry, key):
     return True
 
 
+def evidence_dir():
+    d = os.environ.get("VERIF_EVIDENCE_DIR") or os.path.join(VERIF, "evidence")
+    os.makedirs(d, exist_ok=True)
+    return d
+
+
 def replay_path(prop, seed, suffix=""):
-    d = os.path.join(VERIF, "replays")
+    d = os.environ.get("VERIF_REPLAY_DIR") or os.path.join(VERIF, "replays")
     os.makedirs(d, exist_ok=True)
     return os.path.join(d, f"{prop}-{seed}{suffix}.json")
